@@ -155,7 +155,7 @@ def run(ctx):
         ctx.finding(kind + ":" + key,
                     "history of the real ping cache is not a behaviour of PingCacheHist (first unexplained "
                     "event: %s)" % json.dumps(bad), rj)
-    runs = st["schedules"] + st["stress_runs"] + st["e2e_runs"]
+    runs = st["schedules"] + st["stress_runs"] + st["slow_fetch_runs"] + st["e2e_runs"]
     cov = {
         "states": mc_states + tstates,
         "samples": st["samples"][:2] + [{"trace_events": len(recs), "runs": runs}],
@@ -168,6 +168,7 @@ def run(ctx):
         "unknown_steps": st["unknown_steps"],
         "store_outcomes": st["store_events"],
         "stress_runs": st["stress_runs"],
+        "slow_fetch_runs": st["slow_fetch_runs"],
         "e2e_runs": st["e2e_runs"],
         "e2e_status_requests": st["e2e_requests"],
         "e2e_reloads": st["e2e_reloads"],
